@@ -129,11 +129,12 @@ def build(flavour, binary='runner'):
     if errs:
         log('BUILD FAILED (%s/%s):\n%s' % (flavour, binary, '\n'.join(errs)))
         return None
-    r = run_cmd([fl['cxx']] + hobjs + eobjs + fl['link'] + ['-pthread', '-o', exe + '.tmp'])
+    tmpexe = exe + '.tmp%d' % os.getpid()  # concurrent checks may build the same directory
+    r = run_cmd([fl['cxx']] + hobjs + eobjs + fl['link'] + ['-pthread', '-o', tmpexe])
     if r.returncode != 0:
         log('LINK FAILED (%s/%s):\n%s' % (flavour, binary, r.stdout[-6000:]))
         return None
-    os.replace(exe + '.tmp', exe)
+    os.replace(tmpexe, exe)
     log('[build] %s/%s built in %.1fs' % (flavour, binary, time.time() - t0))
     prune('eng-%s' % flavour, 2)
     prune('har-%s-%s' % (flavour, binary), 2)
